@@ -110,7 +110,11 @@ def judge(res, job):
             t["kinds"][p[3]] = t["kinds"].get(p[3], 0) + 1
             w = {"in": "%s x(rep)=%d" % (k["k"], rep), "exp": str(wl) if wl == wh else "%d..%d" % (wl, wh), "obs": p[3] + " " + p[4]}
             if p[3] != "VALUE":
-                viol("exp2:" + p[3], w)
+                # defect model (KF-C20-04): positive exponent and an integer part of x that the Rep cannot hold: static_cast<Rep>(floor(x)) overflows
+                if E > 0 and not (lo <= rep << E <= hi) and p[3] in ("UB_TRAP", "SIGNAL"):
+                    viol("exp2_positive_exponent_integer_part_exceeds_rep:" + p[3], w)
+                else:
+                    viol("exp2:" + p[3], w)
                 continue
             got = int(p[4])
             F = -E
@@ -119,7 +123,10 @@ def judge(res, job):
             if not integral:
                 t["nt"] += 1
             d = 0 if wl <= got <= wh else min(abs(got - wl), abs(got - wh))
-            if integral and d != 0:
+            if d > 1 and E > 0 and not (lo <= rep << E <= hi):
+                # same defect model as the trap (KF-C20-04) for reps narrower than int: the conversion of floor(x) to Rep wraps instead of trapping
+                viol("exp2_positive_exponent_integer_part_exceeds_rep:wrong_value", w)
+            elif integral and d != 0:
                 viol("exp2_not_exact_for_integral_x", w)
             elif d > 1:
                 viol("exp2_deviation:%d" % d, w)
@@ -157,7 +164,8 @@ def run(tier, seed, only=None):
         big = [k for k in ex if k not in small]
         import random
         rng = random.Random("C20-%d" % seed)
-        ex = small + rng.sample(big, 16)
+        pos = [k for k in big if not k["desc"].split(",")[-1].startswith("-") and not k["desc"].endswith(",0>>")]
+        ex = small + pos + rng.sample([k for k in big if k not in pos], 16)
     ks = ex + co
     if only:
         ks = [k for k in c19.load()["kernels"] if k["desc"] == only["kernel"]]
